@@ -766,10 +766,21 @@ Proof.
   assert (Hfind : forall id z, find_arg x id = Some z -> ztame_arg z = true).
   { intros id z Hf. unfold find_arg in Hf. apply find_some in Hf. destruct Hf as [Hf _]. apply (Hargs x (or_introl eq_refl) z Hf). }
   destruct (a_global a).
-  - unfold get_global_arg_conflicts_with in El. destruct (map_opt_in_inv _ _ _ _ El Hin) as (id & _ & Hf).
-    apply find_some in Hf. destruct Hf as [Hf _]. apply in_app_or in Hf. destruct Hf as [Hf|Hf].
-    + apply (Hargs x (or_introl eq_refl) y Hf).
-    + apply in_flat_map in Hf. destruct Hf as (m & Hm & Hy). apply (Hargs m (or_intror (subcommands_containing_desc _ _ _ Hm)) y Hy).
+  - unfold get_global_arg_conflicts_with in El.
+    destruct (map_opt (global_conflict_targets x a) (a_blacklist a)) as [ls|] eqn:Els; [|discriminate]. inversion El; subst l.
+    apply in_concat in Hin. destruct Hin as (ys & Hys & Hy).
+    destruct (map_opt_in_inv _ _ _ _ Els Hys) as (id & _ & Hid). unfold global_conflict_targets in Hid.
+    destruct (find (fun z => beq (a_id z) id) (c_args x ++ flat_map c_args (subcommands_containing x (a_id a)))) as [z|] eqn:Ez.
+    + inversion Hid; subst ys. destruct Hy as [<-|[]]. apply find_some in Ez. destruct Ez as [Hf _].
+      apply in_app_or in Hf. destruct Hf as [Hf|Hf].
+      * apply (Hargs x (or_introl eq_refl) z Hf).
+      * apply in_flat_map in Hf. destruct Hf as (m & Hm & Hz). apply (Hargs m (or_intror (subcommands_containing_desc _ _ _ Hm)) z Hz).
+    + destruct (find (fun c => find_group c id) (x :: subcommands_containing x (a_id a))) as [c|] eqn:Ec; [|discriminate].
+      apply find_some in Ec. destruct Ec as [Hc _]. unfold group_targets in Hid.
+      destruct (unroll_args_in_group c id) as [ids|]; [|discriminate].
+      destruct (map_opt_in_inv _ _ _ _ Hid Hy) as (n & _ & Hn). unfold find_arg in Hn. apply find_some in Hn. destruct Hn as [Hn _].
+      destruct Hc as [<-|Hc]; [apply (Hargs x (or_introl eq_refl) y Hn)|].
+      apply (Hargs c (or_intror (subcommands_containing_desc _ _ _ Hc)) y Hn).
   - destruct (map_opt (conflict_targets x) (a_blacklist a)) as [ls|] eqn:Els; [|discriminate]. inversion El; subst l.
     apply in_concat in Hin. destruct Hin as (ys & Hys & Hy).
     destruct (map_opt_in_inv _ _ _ _ Els Hys) as (id & _ & Hid). unfold conflict_targets in Hid.
